@@ -61,13 +61,16 @@ static void describe(int tier, int prog, char * b, size_t n) {
 static prog_t * cur;
 static myth_mutex_t mtx;
 static volatile int occ, busy, starts, acquired[3], tried[3], ebusy[3], timedout[3];
-static volatile int blocked_seen, by_progress, by_stop;
+static volatile int blocked_seen, by_progress, by_stop, trying;
+/* on one worker nobody else can run while a thread is inside a call that never blocks or yields */
+static void nobody_inside_trylock(const char * where) { if (cur->W == 1) MV_CHECK(trying == 0, "%s: another thread ran on the only worker while a thread was inside myth_mutex_trylock (trylock gave up the worker: it blocked or yielded)", where); }
 
 static void cs(int me, int with_yield) {
+  nobody_inside_trylock("critical section");
   occ++;
   mv_point(&occ, sizeof occ);
   MV_CHECK(occ == 1, "two threads inside the critical section (occupancy %d, t%d just entered)", occ, me);
-  if (with_yield) { myth_yield(); MV_CHECK(occ == 1, "another thread entered the critical section while t%d held the mutex across a yield (occupancy %d)", me, occ); }
+  if (with_yield) { myth_yield(); nobody_inside_trylock("after yield"); MV_CHECK(occ == 1, "another thread entered the critical section while t%d held the mutex across a yield (occupancy %d)", me, occ); }
   acquired[me]++;
   occ--;
 }
@@ -89,7 +92,10 @@ static void * contender(void * a) {
       int busy0 = busy, starts0 = starts; long steps0 = mv_steps();
       busy++; starts++;
       tried[me]++;
+      nobody_inside_trylock("before trylock");
+      trying++;
       r = myth_mutex_trylock(&mtx);
+      trying--;
       MV_CHECK(r == 0 || r == EBUSY, "myth_mutex_trylock returned %d", r);
       if (r == EBUSY) {
 	ebusy[me]++; mv_cover(1);
